@@ -68,7 +68,7 @@ End Resolves.
 Definition wit_objs : list sobj :=
   map (fun k => mkSObj (N.of_nat k) 3 (2000 - Z.of_nat k) None) (seq 0 21)
   ++ [mkSObj 21 3 1975 None]
-  ++ map (fun i => mkSObj (N.of_nat (21 + i)) 3 (900 - Z.of_nat i) (Some (N.of_nat (20 + i), 10%Z))) (seq 1 30).
+  ++ map (fun i => mkSObj (N.of_nat (21 + i)) 3 (900 - Z.of_nat i) (Some (N.of_nat (20 + i), 900 - Z.of_nat i)%Z)) (seq 1 30).
 
 
 Definition wit_st : sstate :=
